@@ -345,7 +345,7 @@ func c18(run *core.Run, replay string) {
 		pipes = append(pipes, racePipe{Cfg: kz.Cfg{Transform: ch, Entropy: "NONE", BlockSize: 262144, Jobs: uint(3 + i), Checksum: 32}, Shape: []string{"elfx86", "text", "pe"}[i], Size: 4*262144 + 1000, DecJ: 3})
 	}
 	pipes = append(pipes, racePipe{Cfg: kz.Cfg{Transform: "TEXT", Entropy: "HUFFMAN", BlockSize: 1024, Jobs: 16, Checksum: 64}, Shape: "text", Size: run.Pick(24000, 200000), DecJ: 64, Listen: true, Verbose: 5})
-	wk := &raceWork{Pipes: pipes, Rounds: run.Pick(2, 16), Seed: S, Width: 16}
+	wk := &raceWork{Pipes: pipes, Rounds: run.Pick(2, 8), Seed: S, Width: 16}
 	// several UTF / TEXT pipelines side by side (package-level state of a codec is only exposed when two instances overlap)
 	for i := 0; i < 4; i++ {
 		wk.Pipes = append(wk.Pipes, racePipe{Cfg: kz.Cfg{Transform: []string{"UTF", "TEXT+UTF"}[i%2], Entropy: "NONE", BlockSize: 16384, Jobs: uint(1 + 3*(i%2)), Checksum: 32}, Shape: []string{"cyrillic", "cjk"}[i/2], Size: 100000, DecJ: 2})
@@ -361,7 +361,7 @@ func c18(run *core.Run, replay string) {
 	for _, f := range old {
 		os.Remove(f)
 	}
-	results := core.RunIsolated("c18", []any{wk}, core.IsoOpts{Workers: 1, WallBudget: 60 * time.Minute,
+	results := core.RunIsolated("c18", []any{wk}, core.IsoOpts{Workers: 1, WallBudget: 4 * time.Hour,
 		Env: []string{"GORACE=halt_on_error=0 history_size=4 log_path=" + prefix + "log"}})
 	r := results[0]
 	if r.Status != "ok" {
